@@ -263,6 +263,26 @@ def case(i: int) -> dict:
     return {"i": i, "opt": opt, "cfg": cfg, "cfg_class": klass, "spec": spec, "mode": "serial", "workers": None}
 
 
+EXT_SIZE = 60000
+
+
+def case_ext(i: int) -> dict:
+    """extended population sizes (odd, non-multiples of group counts): judged by C10 only"""
+    rng = random.Random(f"{UNIVERSE_VERSION}/ext/{i}")
+    opt = rng.choice(opt_names())
+    cfg, klass = make_config(rng, opt)
+    base = base_configs()[opt]["population_size"]
+    for _ in range(6):
+        trial = dict(cfg)
+        trial["population_size"] = rng.choice([base + 1, base + 3, base + 5, base + 7, base * 2 - 1, int(base * 1.5) + 1,
+                                               base * 3 + 1, base + rng.randint(1, 25)])
+        if config_valid(opt, trial):
+            cfg = trial
+            break
+    spec = make_spec(rng, kind=rng.choice(["continuous", "continuous", "mixed", "multiobjective", "discrete", "binary"]))
+    return {"i": f"e{i}", "opt": opt, "cfg": cfg, "cfg_class": "ext-" + klass, "spec": spec, "mode": "serial", "workers": None}
+
+
 def sample_indices(seed: int, n: int, tag: str = "") -> list:
     """n distinct universe indices chosen by VERIF_SEED (and a per-check tag)"""
     rng = random.Random(f"{UNIVERSE_VERSION}/sample/{tag}/{seed}")
